@@ -39,6 +39,7 @@ func checkC13(c *Ctx) {
 	c.checkCompletionChannelSignalled("C13.3d-completion-reported-on-every-path")
 	c.checkTopicRepliesAnswer()
 	c.checkReplyWrappersEchoId()
+	c.checkReplyGoesToItsRequest()
 	// a request whose in-flight slot is never released blocks every later request of the session
 	c.checkInflightPairing()
 	// a call party that is not a subscriber of the p2p topic makes Topic.original panic (D16) on the next event
